@@ -71,9 +71,36 @@ def quiet():
         os.close(old2)
 
 
-def run_tagger(bam_in, bam_out, method, multiprocess=False, threads=1, pool='det', order=None, extra=()):
-    """Runs run_multiome_tagging_cmd. pool: 'det' (deterministic stand-in) or 'real'."""
+_EJECT_EVERY = [None]
+_ITER_CLASS = [None]
+
+
+def small_interval_iterator():
+    """MoleculeIterator with a smaller default check_eject_every (module level: picklable by reference for pool workers)."""
+    if _ITER_CLASS[0] is None:
+        from singlecellmultiomics.molecule import MoleculeIterator as Base
+
+        class MoleculeIterator(Base):
+            def __init__(self, *a, **kw):
+                if _EJECT_EVERY[0] is not None:
+                    kw.setdefault('check_eject_every', _EJECT_EVERY[0])
+                Base.__init__(self, *a, **kw)
+        MoleculeIterator.__module__ = __name__
+        MoleculeIterator.__qualname__ = 'SmallIntervalMoleculeIterator'
+        globals()['SmallIntervalMoleculeIterator'] = MoleculeIterator
+        _ITER_CLASS[0] = MoleculeIterator
+    return _ITER_CLASS[0]
+
+
+def run_tagger(bam_in, bam_out, method, multiprocess=False, threads=1, pool='det', order=None, extra=(), eject_every=None):
+    """Runs run_multiome_tagging_cmd. pool: 'det' (deterministic stand-in) or 'real'.
+    eject_every: the tagger's molecule iterator checks its buffer every N fragments (10,000 in the shipped default, not
+    exposed on the command line); a number here scales that interval down so that small libraries reach the buffer check."""
     import singlecellmultiomics.universalBamTagger.bamtagmultiome as tm
+    saved_iter = tm.MoleculeIterator
+    if eject_every is not None:
+        _EJECT_EVERY[0] = eject_every
+        tm.MoleculeIterator = small_interval_iterator()
     cmd = [bam_in, '-method', method, '-o', bam_out] + list(extra)
     if multiprocess:
         cmd += ['--multiprocess', '-tagthreads', str(threads), '-temp_folder', os.path.dirname(bam_out)]
@@ -87,6 +114,8 @@ def run_tagger(bam_in, bam_out, method, multiprocess=False, threads=1, pool='det
             tm.run_multiome_tagging_cmd(cmd)
     finally:
         tm.Pool, tm.sleep = saved_pool, saved_sleep
+        tm.MoleculeIterator = saved_iter
+        _EJECT_EVERY[0] = None
         DetPool.order_seed = None
 
 
